@@ -266,6 +266,10 @@ func checkC14(prop, tier string) int {
 	var samples []any
 	for i, r := range results {
 		if r.Crashed || r.Err != "" {
+			if v := crashViolation(pool, "C14", jobs[i], r); v != nil {
+				viols = append(viols, *v)
+				continue
+			}
 			infra++
 			fmt.Fprintf(os.Stderr, "INFRA: c14 job %d: %s %s\n", i, r.Err, tail(r.Stderr, 400))
 			continue
